@@ -115,6 +115,35 @@ def gen_forest(rng, refs, deep=False):
                 add_group(sym, force_rules=(d == maxdepth - 1))
     else:
         build("", 0, maxdepth)
+    # order-sensitive rule sequences (last matching rule wins inside a group)
+    if symbols and rng.random() < 0.6:
+        for sym in rng.sample(symbols, min(len(symbols), rng.randint(1, 3))):
+            ref = rng.choice(refs)
+            parts = ref.split("/")
+            if len(parts) >= 3:
+                seq = [("include", "/".join(parts[:2])), ("exclude", "/".join(parts[:3])), ("include", ref)]
+                if rng.random() < 0.5:
+                    seq = [("exclude", "/".join(parts[:3])), ("include", "/".join(parts[:2]))]
+                for pol, pat in seq:
+                    entries.append((sym, pol, pat))
+    # split definitions: the entries of one group need not be adjacent in what git reports (same section twice in a file,
+    # several scopes): merge the per-group lists in a random interleaving that keeps each group's own order
+    if rng.random() < 0.5 and len(entries) > 3:
+        per = {}
+        order = []
+        for e in entries:
+            if e[0] not in per:
+                per[e[0]] = []
+                order.append(e[0])
+            per[e[0]].append(e)
+        merged = []
+        pools = [per[s_] for s_ in order]
+        while any(pools):
+            nonempty = [pl for pl in pools if pl]
+            # keep parents defined before their children so that implicit/explicit creation order stays what it was
+            pl = rng.choice(nonempty)
+            merged.append(pl.pop(0))
+        entries = merged
     # augment built-ins sometimes
     if rng.random() < 0.3:
         entries.append((rng.choice(["tags", "branches"]), "exclude", rng.choice(["refs/tags/tmp", "refs/heads/feature"])))
@@ -250,7 +279,7 @@ def run(chk, b, tier):
     sz = b.sizer()
     scratch = b.scratchdir()
     jobs = [(R.SEED, i, sz, scratch, (i % 5 == 4)) for i in range(n)]
-    res = R.pmap(one_case, jobs, chunksize=2)
+    res = R.pmap(one_case, jobs, chunksize=2, chk=chk)
     depths = {}
     for r in res:
         chk.count(r["runs"])
